@@ -112,6 +112,9 @@ func (m *Machine) replay() {
 			if j.CancelWhileWait && j.CancelAckedSeq < e.Seq {
 				m.fail("C04", "job #%d was canceled while waiting (ack at seq %d) and is started at seq %d", j.AcceptIdx, j.CancelAckedSeq, e.Seq)
 			}
+			if j.PurgedSeq != 0 && !j.PurgedStarted {
+				m.fail("C01", "job #%d was removed by a save while it was waiting (seen gone at seq %d: no longer reported) and is started at seq %d: it executes outside the accounting of its pipeline's concurrency", j.AcceptIdx, j.PurgedSeq, e.Seq)
+			}
 			if j.Replaced && j.ReplacedSeq < e.Seq {
 				m.fail("C07", "job #%d was replaced on the wait list (seq %d) and is started at seq %d", j.AcceptIdx, j.ReplacedSeq, e.Seq)
 				m.fail("C05", "job #%d was replaced on the wait list (seq %d) and is started at seq %d", j.AcceptIdx, j.ReplacedSeq, e.Seq)
@@ -144,7 +147,17 @@ func (m *Machine) replay() {
 			}
 			mon.exec[p][e.Job] = true
 			if def, ok := m.defsAt(e.Seq).Pipelines[p]; ok {
-				if n := len(mon.exec[p]); n > def.Concurrency {
+				// (a job that a save removed while it executed - its pipeline was not defined then - goes on
+				// executing unreported; it is a job of the pipeline that was removed, not of the one defined
+				// again under the same name: DESIGN.md 6.3)
+				n := 0
+				for id := range mon.exec[p] {
+					if o := jobs[id]; o != nil && o.PurgedSeq != 0 && o.PurgedStarted {
+						continue
+					}
+					n++
+				}
+				if n > def.Concurrency {
 					m.fail("C01", "pipeline %s: %d jobs execute after the start of job #%d (seq %d), concurrency is %d", p, n, j.AcceptIdx, e.Seq, def.Concurrency)
 				}
 			}
